@@ -39,7 +39,7 @@ def all_tilings(n, m):
     yield from rec([[None] * m for _ in range(n)], [])
 
 
-def render(rects, n, m, texts, spell, para=lambda t: f'<w:p><w:r><w:t>{t}</w:t></w:r></w:p>'):
+def render(rects, n, m, texts, spell, para=lambda t: f'<w:p><w:r><w:t>{t}</w:t></w:r></w:p>', hidden=lambda k, a: '<w:p/>'):
     """texts[k] = list of paragraph texts of rectangle k; spell(k, row) in {'bare', 'explicit'} for continuation cells.
     Returns (xml, expected) where expected(dup) is the n x m grid of paragraph-text lists."""
     rows = [[] for _ in range(n)]
@@ -55,7 +55,7 @@ def render(rects, n, m, texts, spell, para=lambda t: f'<w:p><w:r><w:t>{t}</w:t><
             if h > 1:
                 if top: pr += '<w:vMerge w:val="restart"/>'
                 else: pr += '<w:vMerge/>' if spell(k, a) == 'bare' else '<w:vMerge w:val="continue"/>'
-            body = ''.join(para(t) for t in texts[k]) if top else '<w:p/>'
+            body = ''.join(para(t) for t in texts[k]) if top else hidden(k, a)
             xml += f'<w:tc><w:tcPr><w:tcW w:w="100" w:type="dxa"/>{pr}</w:tcPr>{body}</w:tc>'
         xml += '</w:tr>'
     xml += '</w:tbl>'
